@@ -33,6 +33,11 @@ def problem(rng, kind):
     return cfg
 
 
+def as_string(bits):
+    """the string form of a mask over (nn_params, a, b) when it has one"""
+    return {(True, True, True): "both", (False, True, True): "eq_params", (True, False, False): "nn_params"}.get(tuple(bool(x) for x in bits))
+
+
 def build(cfg, masks):
     jax, jnp, np, eqx, jinns = jx()
     from jinns.parameters import Params
@@ -43,14 +48,16 @@ def build(cfg, masks):
     nn = eqx.tree_at(lambda m: m.scale, u.init_params(), jnp.array(cfg["theta"]))
     P = Params(nn_params=nn, eq_params={"a": jnp.array(cfg["a"]), "b": jnp.array(cfg["b"])})
     q = cfg["q"]
-    M = lambda t: Params(nn_params=bool(masks[t][0]), eq_params={"a": bool(masks[t][1]), "b": bool(masks[t][2])})
+    Mtree = lambda t: Params(nn_params=bool(masks[t][0]), eq_params={"a": bool(masks[t][1]), "b": bool(masks[t][2])})
+    use_str = all(as_string(masks[t]) for t in masks)           # every mask has a string form: go through from_str (strings and trees may be mixed)
+    M = (lambda t: as_string(masks[t])) if use_str else Mtree
     obs = {"pinn_in": jnp.array(cfg["obs"]["inputs"]), "val": jnp.array(cfg["obs"]["vals"]), "eq_params": {}}
     w = cfg["w"]
     if kind == "ode":
         class Eq(jinns.loss.ODE):
             def equation(self, t, u, params):
                 return params.eq_params["a"] * u(t, params) + poly_jax(q, jnp.atleast_1d(t))
-        dk = jinns.parameters.DerivativeKeysODE(dyn_loss=M("dyn_loss"), observations=M("observations"), initial_condition=M("initial_condition"))
+        dk = (lambda **kw: jinns.parameters.DerivativeKeysODE.from_str(P, **kw) if use_str else jinns.parameters.DerivativeKeysODE(**kw))(dyn_loss=M("dyn_loss"), observations=M("observations"), initial_condition=M("initial_condition"))
         lw = jinns.loss.LossWeightsODE(dyn_loss=w["dyn_loss"], initial_condition=w["initial_condition"], observations=w["observations"])
         L = jinns.loss.LossODE(u=u, dynamic_loss=Eq(), derivative_keys=dk, loss_weights=lw, initial_condition=(cfg["ic"]["t0"], jnp.array(cfg["ic"]["u0"])))
         batch = ODEBatch(temporal_batch=jnp.array(cfg["batch"])[:, 0], obs_batch_dict=obs)
@@ -63,7 +70,7 @@ def build(cfg, masks):
         class Eq(jinns.loss.PDEStatio):
             def equation(self, x, u, params):
                 return params.eq_params["a"] * u(x, params) + poly_jax(q, x)
-        dk = jinns.parameters.DerivativeKeysPDEStatio(dyn_loss=M("dyn_loss"), observations=M("observations"), boundary_loss=M("boundary_loss"), norm_loss=M("norm_loss"))
+        dk = (lambda **kw: jinns.parameters.DerivativeKeysPDEStatio.from_str(P, **kw) if use_str else jinns.parameters.DerivativeKeysPDEStatio(**kw))(dyn_loss=M("dyn_loss"), observations=M("observations"), boundary_loss=M("boundary_loss"), norm_loss=M("norm_loss"))
         lw = jinns.loss.LossWeightsPDEStatio(dyn_loss=w["dyn_loss"], norm_loss=w["norm_loss"], boundary_loss=w["boundary_loss"], observations=w["observations"])
         L = jinns.loss.LossPDEStatio(u=u, dynamic_loss=Eq(), derivative_keys=dk, loss_weights=lw, omega_boundary_fun=lambda x: poly_jax(fb, x), **common)
         return P, L, PDEStatioBatch(inside_batch=jnp.array(cfg["batch"]), border_batch=arr, obs_batch_dict=obs)
@@ -71,7 +78,7 @@ def build(cfg, masks):
     class Eq(jinns.loss.PDENonStatio):
         def equation(self, t, x, u, params):
             return params.eq_params["a"] * u(t, x, params) + poly_jax(q, jnp.concatenate([t, x]))
-    dk = jinns.parameters.DerivativeKeysPDENonStatio(dyn_loss=M("dyn_loss"), observations=M("observations"), boundary_loss=M("boundary_loss"),
+    dk = (lambda **kw: jinns.parameters.DerivativeKeysPDENonStatio.from_str(P, **kw) if use_str else jinns.parameters.DerivativeKeysPDENonStatio(**kw))(dyn_loss=M("dyn_loss"), observations=M("observations"), boundary_loss=M("boundary_loss"),
                                                      norm_loss=M("norm_loss"), initial_condition=M("initial_condition"))
     lw = jinns.loss.LossWeightsPDENonStatio(dyn_loss=w["dyn_loss"], norm_loss=w["norm_loss"], boundary_loss=w["boundary_loss"], observations=w["observations"],
                                             initial_condition=w["initial_condition"])
@@ -159,23 +166,31 @@ def direct_oracle(cfg, masks, grad, val):
 
 
 def string_forms_oracle(rng):
-    """string specifications against the boolean trees, defaults, rejected strings"""
+    """string specifications against the boolean trees (field by field and all fields at once with
+    different strings), defaults, rejected strings"""
     jax, jnp, np, eqx, jinns = jx()
     from jinns.parameters import Params
     fails = []
     P = Params(nn_params={"w": jnp.ones(2)}, eq_params={"a": jnp.array(1.0), "b": jnp.array(2.0)})
     want = {"both": (True, True), "eq_params": (False, True), "nn_params": (True, False)}
+    FIELDS = ("dyn_loss", "observations", "initial_condition", "boundary_loss", "norm_loss")
+
+    def is_mask(m, nn, eq):
+        return set(jax.tree_util.tree_leaves(m.nn_params)) == {nn} and m.eq_params == {"a": eq, "b": eq}
     for cls in (jinns.parameters.DerivativeKeysODE, jinns.parameters.DerivativeKeysPDEStatio, jinns.parameters.DerivativeKeysPDENonStatio):
-        for s, (nn, eq) in want.items():
-            dk = cls.from_str(P, dyn_loss=s)
-            got = dk.dyn_loss
-            if set(jax.tree_util.tree_leaves(got.nn_params)) != {nn} or got.eq_params != {"a": eq, "b": eq}:
-                fails.append({"detail": f"{cls.__name__}.from_str(dyn_loss={s!r}) gives {got}", "case": {"what": "strings"}})
+        fields = [x for x in FIELDS if hasattr(cls(params=P), x)]
+        specs = [{f: s} for f in fields for s in want]                                   # one field at a time
+        specs += [{f: rng.choice(list(want)) for f in fields} for _ in range(6)]          # all fields, independent strings
+        for spec in specs:
+            dk = cls.from_str(P, **spec)
+            for f in fields:
+                nn, eq = want[spec.get(f, "nn_params")]
+                if not is_mask(getattr(dk, f), nn, eq):
+                    fails.append({"detail": f"{cls.__name__}.from_str({spec}) gives {f} = {getattr(dk, f)}", "case": {"what": "strings"}})
         d = cls(params=P)
-        for f in [x for x in ("dyn_loss", "observations", "initial_condition", "boundary_loss", "norm_loss") if hasattr(d, x)]:
-            m = getattr(d, f)
-            if set(jax.tree_util.tree_leaves(m.nn_params)) != {True} or m.eq_params != {"a": False, "b": False}:
-                fails.append({"detail": f"default of {cls.__name__}.{f} is {m}", "case": {"what": "strings"}})
+        for f in fields:
+            if not is_mask(getattr(d, f), True, False):
+                fails.append({"detail": f"default of {cls.__name__}.{f} is {getattr(d, f)}", "case": {"what": "strings"}})
         try:
             cls.from_str(P, dyn_loss="everything")
             fails.append({"detail": f"{cls.__name__}.from_str accepts an unknown string", "case": {"what": "strings"}})
@@ -350,6 +365,9 @@ def generate(tier, seed, casedir, variant):
             n = {"quick": 14, "thorough": 150}[tier]
             assigns = [tuple(rng.random() < 0.5 for _ in range(nbits)) for _ in range(n)]
             assigns[0] = tuple([True, False, False] * len(TERMS[kind]))       # the default
+            STR = [(True, True, True), (False, True, True), (True, False, False)]
+            for j in range(1, 6):                                               # string-form specifications, a different string per term
+                assigns[j] = tuple(b for _ in TERMS[kind] for b in rng.choice(STR))
         for j, bits in enumerate(assigns):
             masks = {t: list(bits[3 * i:3 * i + 3]) for i, t in enumerate(TERMS[kind])}
             if j % 25 == 24:
@@ -376,7 +394,7 @@ def generate(tier, seed, casedir, variant):
     # ids of the system files are local to them: the driver looks them up as "s<id>" when the file name says so
     meta.update(smeta); cases = cases + scases
     return dict(meta=meta, oracle_violations=viol, evaluations=len(cases), distinct_nontrivial=len(nontrivial), samples=samples, distribution=dist,
-                rule="assignments of {selected, not selected} to every (loss term, parameter group) pair, groups = network parameters, eq_params[a], eq_params[b] (all 512 for the ODE loss in the thorough tier, random ones otherwise, the default always included), on random polynomial problems; jax.grad of the total and the value compared with the symbolic masked total; non-trivial = non-zero gradient; distinct by (loss kind, assignment); plus string / default / rejection checks; plus two-unknown system losses (ODE and non-stationary PDE) whose per-unknown derivative keys differ, groups = nn_params[u], nn_params[v], eq_params[a], eq_params[b]",
+                rule="assignments of {selected, not selected} to every (loss term, parameter group) pair, groups = network parameters, eq_params[a], eq_params[b] (all 512 for the ODE loss in the thorough tier, random ones otherwise, the default and five string-form specifications (built with from_str) always included), on random polynomial problems; jax.grad of the total and the value compared with the symbolic masked total; non-trivial = non-zero gradient; distinct by (loss kind, assignment); plus string / default / rejection checks; plus two-unknown system losses (ODE and non-stationary PDE) whose per-unknown derivative keys differ, groups = nn_params[u], nn_params[v], eq_params[a], eq_params[b]",
                 oracle_checks=len(cases) // 7 + 1, exhaustive=False)
 
 
